@@ -35,7 +35,10 @@ type Image struct {
 	Dest  URL
 	Title *Title
 }
-type Auto struct{ URL string }  // <scheme:...>
+type Auto struct {
+	URL string // <scheme:...>
+	Not bool   // the scheme is one character too short or too long (2-32 are allowed): plain text
+}
 type Mail struct{ Addr string } // <a@b.c>
 type Raw struct{ S string }     // inline raw html
 type Soft struct{}
@@ -199,7 +202,11 @@ func renderInl(in []Inline) string {
 			}
 			sb.WriteString(">")
 		case Auto:
-			sb.WriteString(`<a href="` + esc(urlEsc(v.URL)) + `">` + esc(v.URL) + "</a>")
+			if v.Not {
+				sb.WriteString(esc("<" + v.URL + ">"))
+			} else {
+				sb.WriteString(`<a href="` + esc(urlEsc(v.URL)) + `">` + esc(v.URL) + "</a>")
+			}
 		case Mail:
 			sb.WriteString(`<a href="mailto:` + esc(urlEsc(v.Addr)) + `">` + esc(v.Addr) + "</a>")
 		case Raw:
